@@ -366,6 +366,33 @@ pub fn search(tier: &str, seed: u64, s: &mut Search) {
             let b = format!(r#"{hdr}{fx_defs}<g{attrs} transform="translate({x} {y}) matrix({sx} 0 0 {sy} {tx} {ty})">{content}</g></svg>"#);
             cmp(s, "nested-svg-with-effects==group", &a, &b, true);
         }
+        // a `use` whose target itself contains a `use` of one of the target's own descendants (a part defined inside
+        // the group that reuses it) is not a cycle: it expands like any other
+        {
+            let (bx, by) = (rng.range(5, 30), rng.range(5, 30));
+            let dx = rng.range(30, 60);
+            let (ux, uy) = (rng.range(0, 20), rng.range(0, 20));
+            let wrap = *rng.pick(&["g", "g", "svg"]);
+            let (open, close) = if wrap == "g" { (r#"<g id="pair">"#.to_string(), "</g>") } else { (r#"<svg id="pair" overflow="visible">"#.to_string(), "</svg>") };
+            let a = format!(r##"{hdr}<defs>{open}<rect id="box" x="{bx}" y="{by}" width="14" height="10" fill="teal"/><use xlink:href="#box" x="{dx}"/>{close}</defs><use xlink:href="#pair" x="{ux}" y="{uy}"/></svg>"##);
+            if wrap == "g" {
+                let b = format!(r##"{hdr}<g transform="translate({ux} {uy})"><g><rect x="{bx}" y="{by}" width="14" height="10" fill="teal"/><g transform="translate({dx} 0)"><rect x="{bx}" y="{by}" width="14" height="10" fill="teal"/></g></g></g></svg>"##);
+                cmp(s, "use-of-a-group-that-reuses-its-own-part==expansion", &a, &b, true);
+            } else {
+                // (for an svg target only: the instance renders the same pixels as the inline copy)
+                let b = format!(r##"{hdr}<g transform="translate({ux} {uy})"><rect x="{bx}" y="{by}" width="14" height="10" fill="teal"/><rect x="{}" y="{by}" width="14" height="10" fill="teal"/></g></svg>"##, bx + dx);
+                let o = crate::corpus::opts_for(None);
+                if let (Ok(ta), Ok(tb)) = (usvg::Tree::from_str(&a, &o), usvg::Tree::from_str(&b, &o)) {
+                    if let (Some(pa), Some(pb)) = (crate::rend::render(&ta, 120, 100, resvg::tiny_skia::Transform::identity()), crate::rend::render(&tb, 120, 100, resvg::tiny_skia::Transform::identity())) {
+                        s.case("use-of-an-svg-that-reuses-its-own-part", &a, true);
+                        let (ok, why) = crate::rend::similar(&pa, &pb, 2);
+                        if !ok {
+                            s.finding("oracle:expansion:use-of-an-svg-that-reuses-its-own-part", &format!("differs from the inline copy: {}", why), &a);
+                        }
+                    }
+                }
+            }
+        }
         // a text reached through `use` takes xml:space (like every inherited property) from where it is USED
         {
             let content = *rng.pick(&["  a   b  ", " x  y", "p    q   ", "one  two   three"]);
@@ -439,6 +466,20 @@ pub fn search(tier: &str, seed: u64, s: &mut Search) {
                 } else {
                     s.finding("oracle:expansion:gzip==plain", "gzip-compressed input is rejected", &plain);
                 }
+            }
+            // the same text compressed as two gzip members (what `gzip -c a > f; gzip -c b >> f` produces)
+            let cut = rng.range(1, plain.len() as i64 - 1) as usize;
+            let cut = (0..=cut).rev().find(|k| plain.is_char_boundary(*k)).unwrap_or(0);
+            let member = |part: &str| {
+                let mut enc = flate2::write::GzEncoder::new(Vec::new(), flate2::Compression::default());
+                let _ = enc.write_all(part.as_bytes());
+                enc.finish().unwrap_or_default()
+            };
+            let mut two = member(&plain[..cut]);
+            two.extend(member(&plain[cut..]));
+            s.case("gzip-two-members==plain", &plain, true);
+            if tree_text(&two, &o) != tree_text(plain.as_bytes(), &o) {
+                s.finding("oracle:expansion:gzip-with-several-members", "input compressed as two gzip members gives a different tree or is rejected", &plain);
             }
         }
     }
